@@ -72,12 +72,12 @@ Mutants(k) ==
   { <<"none", b>> }
   \cup { <<"cd0", [b EXCEPT !.cd = 0]>> }
   \cup { <<"cols", [b EXCEPT !.cols = n]>> : n \in {1, 3} }
-  \cup { <<"bals", [b EXCEPT !.bals = x]>> : x \in {"negative", "ragged", "noassets"} }
+  \cup { <<"bals", [b EXCEPT !.bals = x]>> : x \in {"negative", "ragged", "raggedlong", "noassets"} }   \* ragged: a later row is shorter / longer than the first
   \cup { <<"locked", [b EXCEPT !.locked = TRUE]>>, <<"locked0", [b EXCEPT !.locked = TRUE, !.lockedamt = 0]>> }
   \cup (IF k \in {"ledger", "virtual"}
         THEN { <<"fa", [b EXCEPT !.fa = "shifted"]>> } ELSE {})
   \cup (IF k \in {"ledger", "virtual"}
-        THEN { <<"peers", [b EXCEPT !.peers = x]>> : x \in {"RS", "SX", "XR", "S", "SRX"} } ELSE {})
+        THEN { <<"peers", [b EXCEPT !.peers = x]>> : x \in {"RS", "SX", "XR", "S", "SRX", "ER", "SE"} } ELSE {})   \* "E": an entry without any address
   \cup (IF k = "sub"
         THEN { <<"parent", [b EXCEPT !.parent = "unknown"]>>, <<"sender", [b EXCEPT !.sender = "S"]>> } ELSE {})
   \cup (IF k \in {"sub", "virtual"}
